@@ -9,6 +9,7 @@ import Mdsort.Spec.Mime
 import Mdsort.Proofs.Mime
 import Mdsort.Model.Eval
 import Driver.Ast
+import Mdsort.Spec.Rules
 
 /-!
 Line-protocol driver: one request per line `<side> <op> <hexarg>*`, one response
@@ -183,7 +184,7 @@ def handleEval (args : List Bytes) : String :=
       | none => "PARSEERR"
       | some mf =>
         let env : Model.Env := {
-          rx := rxFFI, command := commandOracle, isDir := fun p => dirs.contains p, now := nowI,
+          rx := rxFFI, command := commandOracle, isDir := fun p => dirs.contains p || (ofString "/yes").isSuffixOf p, now := nowI,
           strptime := strptimeEnv, zoneName := zoneEnv nowI, fileTime := fun _ => none,
           dryrun := dry == ofString "1", path := path }
         let (tri, st) := Model.eval env msg e 0 msg { ml := [], flags := mf }
@@ -197,6 +198,53 @@ def handleEval (args : List Bytes) : String :=
           | none => s!"MATCH {ml1} {fl} INTERR"
           | some (ml2, msgs2) => s!"MATCH {ml1} {fl} {String.intercalate ";" (ml2.map matchDump)} {dumpTable (msgs2 0)}"
         | t => s!"{triName t} {ml1} {fl}"
+  | _ => "BADOP"
+
+partial def exprAny (p : Model.Expr → Bool) (e : Model.Expr) : Bool :=
+  p e || (match e with
+    | .block _ a | .neg _ a | .attachment _ a | .attBlock _ a => exprAny p a
+    | .and _ a b | .or _ a b | .mtch _ a b => exprAny p a || exprAny p b
+    | _ => false)
+
+def keyStr (k : Model.MType × Nat) : String := s!"{k.1.name}:{k.2}"
+
+/-- Specification side of `eval`: documented rule semantics over the valuation the matchers
+have on this message.  NOTWF when the tree is outside the specification's domain. -/
+def handleSpecEval (args : List Bytes) : String :=
+  match args with
+  | ast :: file :: path :: _dry :: now :: _ =>
+    match Driver.parseExpr (String.ofList (ast.map fun c => Char.ofNat c.toNat)) with
+    | none => "BADAST"
+    | some e =>
+      match Spec.parseBlock e with
+      | none => "NOTWF"
+      | some rules =>
+        let ctxDependent := exprAny (fun x => match x with
+            | .command _ av => av.any (·.contains 92)
+            | .stat _ p => p.contains 92
+            | _ => false) e
+          || (exprAny (fun x => match x with | .old _ => true | _ => false) e &&
+              exprAny (fun x => match x with | .flags .. => true | _ => false) e)
+          || exprAny (fun x => match x with | .attBlock .. => true | _ => false) e
+        if ctxDependent then "NOTWF" else
+        let nowI : Int := ((String.ofList (now.map fun c => Char.ofNat c.toNat)).toInt?).getD 0
+        let msg := Model.parseMessage file
+        let name := (path.reverse.takeWhile (· != 47)).reverse
+        match Model.flagsParse name with
+        | none => "NOTWF"
+        | some mf =>
+          let env : Model.Env := {
+            rx := rxFFI, command := commandOracle, isDir := fun p => (ofString "/yes").isSuffixOf p, now := nowI,
+            strptime := strptimeEnv, zoneName := zoneEnv nowI, fileTime := fun _ => none,
+            dryrun := false, path := path }
+          let v (a : Model.Expr) : Model.Tri := (Model.eval env msg a 0 msg { ml := [], flags := mf }).1
+          let aerr (a : Model.Expr) : Bool := match a with
+            | .flags _ fl => fl.any (fun c => !isalpha c)
+            | .move _ p => p.length ≥ Model.PATH_MAX
+            | _ => false
+          let o := Spec.evalBlock v aerr rules
+          let (np, lp) := Spec.planOf (o.actions.filterMap Spec.actKey)
+          s!"{triName o.res} {if o.crosses then "CROSSES" else "LOCAL"} [{String.intercalate "," (np.map keyStr)}] {match lp with | none => "-" | some k => keyStr k}"
   | _ => "BADOP"
 
 def handleMsg (side op : String) (args : List Bytes) : Option String :=
@@ -234,6 +282,7 @@ def handle (side op : String) (args : List String) : String :=
   | "M", "b64n", some [s, n] => optHex (Model.b64pton s n.length)
   | "M", "r2047", some [s] => toHex (Model.rfc2047Decode s)
   | "S", "r2047", some [s] => toHex (cstr (Spec.rfc2047 s))
+  | "S", "eval", some as => handleSpecEval as
   | "S", _, some as =>
     match handleSpec op as with
     | some r => r
